@@ -341,7 +341,7 @@ func (c *c10Run) lookup(ht *HostTable, host string, vip net.IP) (product, tag st
 }
 
 // judge compares one answer with the reference; returns the outcome class.
-func (c *c10Run) judge(tableKey, vipName string, tab []c10Entry, cfg string, pi int, strictIdx, laxIdx int, vipProduct, def string,
+func (c *c10Run) judge(ht *HostTable, vip net.IP, tableKey, vipName string, tab []c10Entry, cfg string, pi int, strictIdx, laxIdx int, vipProduct, def string,
 	product string, ret, routeErr error) string {
 	p := c.probes[pi]
 	id := func() string { return c10CaseID(tableKey, def, vipName, p.text) }
@@ -371,11 +371,21 @@ func (c *c10Run) judge(tableKey, vipName string, tab []c10Entry, cfg string, pi 
 	}
 	detail := fmt.Sprintf("table=%v default=%q host=%q: statement gives %s product %q; bfe gives product %q err=%v",
 		c10Hosts(tab), def, p.text, wantClass, wantProduct, product, ret)
+	// signature: the spelling class is named only if the plain spelling of the same host is
+	// answered differently (otherwise the spelling is not what matters)
+	variant := "any"
+	if p.variant != "plain" {
+		variant = p.variant
+		p2, _, ret2, _ := c.lookup(ht, strings.ToLower(c.names[pi]), vip)
+		if p2 == product && (ret2 == nil) == (ret == nil) {
+			variant = "any"
+		}
+	}
 	gotKind := got
 	if (wantClass == "exact" || wantClass == "wildcard") && (got == "vip" || got == "default" || got == "reject") {
 		gotKind = "host-not-matched" // which fallback answers instead depends on the rest of the configuration
 	}
-	c.r.Violation(fmt.Sprintf("want=%s:cfg=%s:probe=%s:got=%s", wantClass, cfg, p.variant, gotKind), id(), detail)
+	c.r.Violation(fmt.Sprintf("want=%s:cfg=%s:probe=%s:got=%s", wantClass, cfg, variant, gotKind), id(), detail)
 	return got
 }
 
@@ -411,36 +421,50 @@ func (c *c10Run) runTable(tab []c10Entry, cfg string, nVip int) {
 			ht := newHostTable()
 			ht.Update(hostConf, vs.conf, c.route)
 			vipProduct := c.vipProd[vi]
-			for pi, p := range c.probes {
-				if r.Replaying() {
-					if !r.Case(c10CaseID(tableKey, def, vs.name, p.text)) {
-						continue
-					}
-				} else {
-					c.evals++
-				}
-				product, tag, ret, routeErr := c.lookup(ht, p.text, vs.sess)
-				class := c.judge(tableKey, vs.name, tab, cfg, pi, c.strict[pi], c.lax[pi], vipProduct, def, product, ret, routeErr)
-				c.outcomes[class]++
-				cand := c.nmatch[pi]
-				if vipProduct != "" {
-					cand++
-				}
-				if def != "" {
-					cand++
-				}
-				if cand >= 2 {
-					c.nontriv++
-					if cand >= 4 && c.samples < 3 && p.variant != "plain" {
-						c.samples++
-						r.Sample(map[string]interface{}{"hosts": c10Hosts(tab), "default": def, "vip": vs.name,
-							"request_host": p.text, "product": product, "host_tag": tag, "decided_by": class})
-					}
-				}
+			cur := 0
+			panicked, val := vk.Guard(func() { c.runProbes(&cur, ht, vs, vipProduct, tableKey, tab, cfg, def) })
+			if panicked {
+				// the statement does not promise totality: reported, not judged
+				c.t.Logf("c10: PANIC in bfe for case %s: %s", c10CaseID(tableKey, def, vs.name, c.probes[cur].text), val)
+				c.outcomes["panic:"+vk.PanicSite(val)]++
+				r.Cap("panic in code under test (see log)")
 			}
 		}
 	}
 	c.flush()
+}
+
+// runProbes probes one installed table with every request host.
+func (c *c10Run) runProbes(cur *int, ht *HostTable, vs *c10VipState, vipProduct, tableKey string, tab []c10Entry, cfg, def string) {
+	r := c.r
+	for pi, p := range c.probes {
+		*cur = pi
+		if r.Replaying() {
+			if !r.Case(c10CaseID(tableKey, def, vs.name, p.text)) {
+				continue
+			}
+		} else {
+			c.evals++
+		}
+		product, tag, ret, routeErr := c.lookup(ht, p.text, vs.sess)
+		class := c.judge(ht, vs.sess, tableKey, vs.name, tab, cfg, pi, c.strict[pi], c.lax[pi], vipProduct, def, product, ret, routeErr)
+		c.outcomes[class]++
+		cand := c.nmatch[pi]
+		if vipProduct != "" {
+			cand++
+		}
+		if def != "" {
+			cand++
+		}
+		if cand >= 2 {
+			c.nontriv++
+			if cand >= 4 && c.samples < 3 && p.variant != "plain" {
+				c.samples++
+				r.Sample(map[string]interface{}{"hosts": c10Hosts(tab), "default": def, "vip": vs.name,
+					"request_host": p.text, "product": product, "host_tag": tag, "decided_by": class})
+			}
+		}
+	}
 }
 
 // c10ScratchDir: directory for the generated data files (memory-backed if there is one: two
@@ -490,18 +514,25 @@ func TestVerifC10(t *testing.T) {
 	// Part 0: a HostTable that was never updated resolves nothing.
 	if r.Mine(0) {
 		ht := newHostTable()
-		for pi, p := range c.probes {
-			for _, vs := range c.vips {
-				if r.Replaying() {
-					if !r.Case(c10CaseID("fresh", "", vs.name, p.text)) {
-						continue
+		panicked, val := vk.Guard(func() {
+			for pi, p := range c.probes {
+				for _, vs := range c.vips {
+					if r.Replaying() {
+						if !r.Case(c10CaseID("fresh", "", vs.name, p.text)) {
+							continue
+						}
+					} else {
+						c.evals++
 					}
-				} else {
-					c.evals++
+					product, _, ret, routeErr := c.lookup(ht, p.text, vs.sess)
+					c.outcomes[c.judge(ht, vs.sess, "fresh", vs.name, nil, "none", pi, -1, -1, "", "", product, ret, routeErr)]++
 				}
-				product, _, ret, routeErr := c.lookup(ht, p.text, vs.sess)
-				c.outcomes[c.judge("fresh", vs.name, nil, "none", pi, -1, -1, "", "", product, ret, routeErr)]++
 			}
+		})
+		if panicked {
+			t.Logf("c10: PANIC in bfe on a never-updated HostTable: %s", val)
+			c.outcomes["panic:"+vk.PanicSite(val)]++
+			r.Cap("panic in code under test (see log)")
 		}
 		c.flush()
 	}
